@@ -187,6 +187,9 @@ static void compare(Cmp &k, const std::string &name, int ta, const Out &a, int t
     if (a.cls == INFO) return;
     if (name.compare(0, 6, "solve.") == 0) {
         if (!a.tag.empty() || !b.tag.empty()) { if (a.tag != b.tag) k.fail(name + ":exception-thread-dependent", "solver construction / solve throws at one thread count only: " + a.tag + " vs " + b.tag, d); return; }
+        // iteration counts legitimately differ by a few between thread counts (rounding class): a run that stops at maxiter within 100 tol of
+        // the target while the other one just made it is not a refutation; a run that is nowhere near convergence is
+        if (a.converged != b.converged && std::isfinite(a.resid) && std::isfinite(b.resid) && std::max(a.resid, b.resid) <= 100 * 1e-8) { vf::obs_sum("solve_pairs_borderline_at_maxiter"); return; }
         if (a.converged != b.converged) { k.fail(name + ":convergence-thread-dependent", "solver reports convergence at one thread count and not at the other", J(d).n("resid_a", a.resid).n("resid_b", b.resid).n("iters_a", a.iters).n("iters_b", b.iters)); return; }
         if (!a.converged) { vf::obs_sum("solve_pairs_not_converged"); return; }
         long double num = 0, den = 0; for (size_t i = 0; i < a.vals.size(); ++i) { long double e = (long double)a.vals[i] - b.vals[i]; num += e * e; den += (long double)a.vals[i] * a.vals[i]; }
@@ -254,8 +257,8 @@ static Input small_input(Rng &r, long idx) {
 
 //---------------------------------------------------------------------------
 static void sub_diff(const std::vector<int> &threads) {
-    long N = vf::opt_int("inputs", vf::tier(16, 200)); int ncell = (int)vf::opt_int("cells", vf::tier(12, 24));
-    int nlo = (int)vf::opt_int("nlo", 600), nhi = (int)vf::opt_int("nhi", vf::tier(2500, 6000));
+    long N = vf::opt_int("inputs", vf::tier(16, 160)); int ncell = (int)vf::opt_int("cells", vf::tier(12, 24));
+    int nlo = (int)vf::opt_int("nlo", 600), nhi = (int)vf::opt_int("nhi", vf::tier(2500, 5000));
     for (long idx = 0; idx < N; ++idx) {
         if (!vf::selected("diff", idx)) continue;
         Rng r(vf::case_seed("diff", idx)); Input in = big_input(r, idx, nlo, nhi), sm = small_input(r, idx);
